@@ -2,6 +2,7 @@
 //! C05 C06 C07 C08 C12 C13 C14 C15 C19. Each check runs the driver with its own focus and reports
 //! only the rules of its own property.
 
+use crate::conn::{evs_short, Ev};
 use crate::driver::*;
 use crate::report::{run_cases, Ctx, Report, Violation};
 use crate::rng::Rng;
@@ -95,5 +96,224 @@ pub fn spec_for(prop: &str) -> Option<Spec> {
 }
 
 pub fn run(ctx: &Ctx) -> Option<Report> {
-    spec_for(&ctx.prop).map(|sp| run_spec(ctx, &sp))
+    let sp = spec_for(&ctx.prop)?;
+    let mut rep = run_spec(ctx, &sp);
+    match ctx.prop.as_str() {
+        "C08" => rep.merge(run_cases(ctx, 2, 4, "", |i, _seed, r| exhaustion_u16(i, r))),
+        "C14" => rep.merge(run_cases(ctx, 2, 8, "", |i, _seed, r| size_boundaries(i, r))),
+        _ => {}
+    }
+    Some(rep)
+}
+
+/// C08: every id 1..=65535 can be in use at once; exhaustion is an error; a released id comes back
+fn exhaustion_u16(i: u64, rep: &mut Report) {
+    use crate::conn::*;
+    let role = [Role::Client, Role::Server, Role::Any, Role::Client][i as usize % 4];
+    let ver = if i % 2 == 0 { LVer::V5 } else { LVer::V311 };
+    let mut c = new_conn(role, 2, ver);
+    rep.evaluations += 1;
+    rep.hit("P6-all-ids-usable-then-exhaustion-reported");
+    let mut seen = vec![false; 65536];
+    let fail = |rep: &mut Report, what: String| {
+        rep.violate(Violation { property: "C08".into(), rule: "P6-all-ids-usable-then-exhaustion-reported".into(), signature: "C08.P6-all-ids-usable-then-exhaustion-reported".into(), what, witness: json!({"role": format!("{:?}", role)}), case: (2, i) });
+    };
+    // hold a few ids first through register, at both ends
+    for id in [1u32, 65535, 300] {
+        if i >= 2 && !matches!(c.register(id), Ok(Ok(()))) {
+            return fail(rep, format!("register_packet_id({}) failed on a fresh object", id));
+        }
+        if i >= 2 {
+            seen[id as usize] = true;
+        }
+    }
+    let already = seen.iter().filter(|x| **x).count();
+    for k in 0..(65535 - already) {
+        match c.acquire() {
+            Ok(Ok(id)) => {
+                if id == 0 || id > 65535 || seen[id as usize] {
+                    return fail(rep, format!("acquire #{} returned {} which is zero, out of range or already in use", k, id));
+                }
+                seen[id as usize] = true;
+            }
+            other => return fail(rep, format!("acquire #{} failed although only {} ids are in use: {:?}", k, k + already, other.map_err(|p| p.message))),
+        }
+    }
+    rep.api_calls += 65535;
+    match c.acquire() {
+        Ok(Err(_)) => {}
+        other => return fail(rep, format!("acquire with all 65535 ids in use did not report exhaustion: {:?}", other.map_err(|p| p.message))),
+    }
+    if matches!(c.register(77), Ok(Ok(()))) {
+        return fail(rep, "register_packet_id(77) succeeded with all ids in use".into());
+    }
+    for id in [65535u32, 1, 40000] {
+        let evs = c.release(id).unwrap_or_default();
+        if evs != vec![Ev::Released(id)] {
+            return fail(rep, format!("release_packet_id({}) returned {}", id, evs_short(&evs)));
+        }
+    }
+    // smallest free first
+    for want in [1u32, 40000, 65535] {
+        match c.acquire() {
+            Ok(Ok(id)) if id == want => {}
+            other => return fail(rep, format!("after releasing 65535, 1, 40000 acquire returned {:?}, expected {}", other.map_err(|p| p.message), want)),
+        }
+    }
+    rep.distinct_case(format!("exhaustion {:?} {:?} {}", role, ver, i).as_bytes());
+}
+
+/// C14: limits exactly at size-1 / size / size+1 of the very packet, for every send path
+fn size_boundaries(i: u64, rep: &mut Report) {
+    use crate::apkt::*;
+    use crate::conn::*;
+    use crate::refcodec as rc;
+    let idw = if i % 2 == 0 { 2 } else { 4 };
+    let as_client = (i / 2) % 2 == 0;
+    let role = if i / 4 == 0 { if as_client { Role::Client } else { Role::Server } } else { Role::Any };
+    let ver = Ver::V5;
+    let known = known_signatures();
+    let mk = |limit: u32, tam: u16, auto_map: bool, auto_pub: bool| -> Driver {
+        let sc = Scenario { role, idw, ver: LVer::V5, focus: Focus::Size, max_ops: 0, hostile_pct: 0, as_client, speak: Ver::V5, connect_first: false };
+        let mut d = Driver::new(sc, 7);
+        d.known = known.clone();
+        if auto_map {
+            d.set_opt(Opt::AutoMapTopicAlias, true);
+        }
+        if auto_pub {
+            d.set_opt(Opt::AutoPubResponse, true);
+        }
+        d.set_opt(Opt::AutoPingResponse, true);
+        let connect = Pkt::Connect { ver, clean: false, keep_alive: 0, client_id: b"c".to_vec(), will: None, user: None, pass: None, props: if as_client { vec![p_u32(P_SEI, 50)] } else { vec![p_u32(P_SEI, 50), p_u32(P_MPS, limit), p_u16(P_TAM, tam)] } };
+        let connack = Pkt::Connack { ver, sp: false, code: 0, props: if as_client { vec![p_u32(P_MPS, limit), p_u16(P_TAM, tam)] } else { vec![] } };
+        if as_client {
+            d.send(connect);
+            d.feed(&rc::encode(&connack, idw), &[]);
+        } else {
+            d.feed(&rc::encode(&connect, idw), &[]);
+            d.send(connack);
+        }
+        d
+    };
+    let mut judge = |d: Driver, what: &str, rep: &mut Report| {
+        let out = d.finish();
+        rep.evaluations += 1;
+        rep.api_calls += out.api_calls;
+        for (k, v) in out.hits.iter() {
+            if k.starts_with('Z') {
+                rep.hit_n(k, *v);
+            }
+        }
+        rep.distinct_case(format!("{} {:?} {} {}", what, role, idw, as_client).as_bytes());
+        for f in out.found.iter().filter(|f| f.property == "C14") {
+            rep.violate(Violation { property: "C14".into(), rule: f.rule.to_string(), signature: f.signature(), what: format!("[{}] {}", what, f.what), witness: json!({"history": trace_json(&out.trace)}), case: (2, i) });
+        }
+    };
+    // (1) direct sends of every kind this path may send while connected
+    let kinds: Vec<Pkt> = {
+        let mut v = vec![
+            Pkt::Publish { ver, dup: false, qos: 0, retain: false, topic: b"a".to_vec(), id: None, props: vec![], payload: b"xyz".to_vec() },
+            Pkt::Publish { ver, dup: false, qos: 1, retain: false, topic: b"ab".to_vec(), id: Some(0), props: vec![], payload: b"x".to_vec() },
+            Pkt::Publish { ver, dup: false, qos: 2, retain: false, topic: b"c/d".to_vec(), id: Some(0), props: vec![p_u16(P_TA, 1)], payload: vec![] },
+            Pkt::Ack { ver, kind: AckKind::Puback, id: 3, code: None, props: None },
+            Pkt::Ack { ver, kind: AckKind::Pubrec, id: 3, code: Some(0x80), props: Some(vec![]) },
+            Pkt::Ack { ver, kind: AckKind::Pubcomp, id: 3, code: Some(0), props: None },
+            Pkt::Disconnect { ver, code: Some(0), props: None },
+            Pkt::Auth { code: Some(0x19), props: Some(vec![p_str(21, "m")]) },
+        ];
+        if as_client {
+            v.push(Pkt::Subscribe { ver, id: 0, props: vec![], entries: vec![(b"a".to_vec(), 1)] });
+            v.push(Pkt::Unsubscribe { ver, id: 0, props: vec![], entries: vec![b"a".to_vec()] });
+            v.push(Pkt::Pingreq { ver });
+        } else {
+            v.push(Pkt::Suback { ver, id: 3, props: vec![], codes: vec![0] });
+            v.push(Pkt::Unsuback { ver, id: 3, props: vec![], codes: vec![0] });
+            v.push(Pkt::Pingresp { ver });
+        }
+        v
+    };
+    for p in kinds.iter() {
+        let base = rc::encode(p, idw).len() as i64;
+        for delta in [-1i64, 0, 1] {
+            for auto_map in [false, true] {
+                let limit = (base + delta).max(1) as u32;
+                let mut d = mk(limit, 2, auto_map, false);
+                let mut q = p.clone();
+                // our own ids come from acquire
+                let needs = matches!(&q, Pkt::Publish { id: Some(_), .. } | Pkt::Subscribe { .. } | Pkt::Unsubscribe { .. });
+                if needs {
+                    if let Some(id) = d.acquire() {
+                        match &mut q {
+                            Pkt::Publish { id: i2, .. } => *i2 = Some(id),
+                            Pkt::Subscribe { id: i2, .. } | Pkt::Unsubscribe { id: i2, .. } => *i2 = id,
+                            _ => {}
+                        }
+                    }
+                }
+                d.send(q.clone());
+                // a second publish on the same topic: the automatic mapping may now swap the topic for the alias
+                if let Pkt::Publish { topic, qos, .. } = &q {
+                    let id2 = if *qos > 0 { d.acquire() } else { None };
+                    if *qos == 0 || id2.is_some() {
+                        d.send(Pkt::Publish { ver, dup: false, qos: *qos, retain: false, topic: topic.clone(), id: id2, props: vec![], payload: b"x".to_vec() });
+                    }
+                }
+                judge(d, &format!("direct {:?} limit=size{:+} auto_map={}", p.kind(), delta, auto_map), rep);
+            }
+        }
+    }
+    // (2) automatic responses against tiny limits
+    for limit in 1u32..=9 {
+        let mut d = mk(limit, 0, false, true);
+        d.feed(&rc::encode(&Pkt::Publish { ver, dup: false, qos: 1, retain: false, topic: b"a".to_vec(), id: Some(1), props: vec![], payload: vec![] }, idw), &[]);
+        d.feed(&rc::encode(&Pkt::Publish { ver, dup: false, qos: 2, retain: false, topic: b"a".to_vec(), id: Some(2), props: vec![], payload: vec![] }, idw), &[]);
+        d.feed(&rc::encode(&Pkt::Ack { ver, kind: AckKind::Pubrel, id: 2, code: None, props: None }, idw), &[]);
+        d.feed(&rc::encode(&Pkt::Ack { ver, kind: AckKind::Pubrel, id: 9, code: None, props: None }, idw), &[]);
+        if !as_client {
+            d.feed(&rc::encode(&Pkt::Pingreq { ver }, idw), &[]);
+        }
+        // a protocol error makes the library send its own DISCONNECT
+        d.feed(&rc::encode(&Pkt::Ack { ver, kind: AckKind::Puback, id: 77, code: None, props: None }, idw), &[]);
+        judge(d, &format!("automatic responses limit={}", limit), rep);
+    }
+    // (3) stored packets resent under a limit around their sizes
+    for limit in [8u32, 10, 11, 12, 13, 14, 15, 16, 17, 18, 20, 40] {
+        let mut d = mk(268_435_455, 2, false, true);
+        for (k, pl) in [0usize, 2, 4, 6].iter().enumerate() {
+            if let Some(id) = d.acquire() {
+                d.send(Pkt::Publish { ver, dup: false, qos: 1 + (k as u8 % 2), retain: false, topic: b"a".to_vec(), id: Some(id), props: vec![], payload: vec![b'p'; *pl] });
+            }
+        }
+        d.closed();
+        let connect = Pkt::Connect { ver, clean: false, keep_alive: 0, client_id: b"c".to_vec(), will: None, user: None, pass: None, props: if as_client { vec![p_u32(P_SEI, 50)] } else { vec![p_u32(P_SEI, 50), p_u32(P_MPS, limit)] } };
+        let connack = Pkt::Connack { ver, sp: true, code: 0, props: if as_client { vec![p_u32(P_MPS, limit)] } else { vec![] } };
+        if as_client {
+            d.send(connect);
+            d.feed(&rc::encode(&connack, idw), &[]);
+        } else {
+            d.feed(&rc::encode(&connect, idw), &[]);
+            d.send(connack);
+        }
+        judge(d, &format!("stored resend limit={}", limit), rep);
+    }
+    // (4) inbound: frames of size limit-1 / limit / limit+1 against the locally announced maximum
+    for delta in [-1i64, 0, 1] {
+        let p = Pkt::Publish { ver, dup: false, qos: 0, retain: false, topic: b"a".to_vec(), id: None, props: vec![], payload: vec![b'q'; 20] };
+        let size = rc::encode(&p, idw).len() as i64;
+        let local = (size + delta) as u32;
+        let sc = Scenario { role, idw, ver: LVer::V5, focus: Focus::Size, max_ops: 0, hostile_pct: 0, as_client, speak: Ver::V5, connect_first: false };
+        let mut d = Driver::new(sc, 9);
+        d.known = known.clone();
+        let connect = Pkt::Connect { ver, clean: true, keep_alive: 0, client_id: b"c".to_vec(), will: None, user: None, pass: None, props: if as_client { vec![p_u32(P_MPS, local)] } else { vec![] } };
+        let connack = Pkt::Connack { ver, sp: false, code: 0, props: if as_client { vec![] } else { vec![p_u32(P_MPS, local)] } };
+        if as_client {
+            d.send(connect);
+            d.feed(&rc::encode(&connack, idw), &[]);
+        } else {
+            d.feed(&rc::encode(&connect, idw), &[]);
+            d.send(connack);
+        }
+        d.feed(&rc::encode(&p, idw), &[]);
+        judge(d, &format!("inbound frame size=limit{:+}", -delta), rep);
+    }
 }
